@@ -18,7 +18,8 @@ from .tlaparse import MV
 z64 = b'\0' * 8
 CLASSES = {'plain': ('zv.model_classes', 'VObj'), 'merge': ('zv.model_classes', 'MObj'),
            'mergefail': ('zv.model_classes', 'FObj'), 'mergeconflict': ('zv.model_classes', 'CObj'),
-           'broken': ('zv.no_such_module', 'Missing'), 'newargs': ('zv.model_classes', 'NObj')}
+           'broken': ('zv.no_such_module', 'Missing'), 'newargs': ('zv.model_classes', 'NObj'),
+           'mergeargs': ('zv.model_classes', 'NMObj')}
 
 
 def p64(n):
@@ -101,6 +102,8 @@ def make_record(kind, v, refs, pad=0, formats=False):
     strong references to the oids in refs (ints)."""
     module, name = CLASSES[kind]
     f = io.BytesIO()
+    if kind == 'mergeargs':
+        return _record_with_newargs(v, refs, pad, formats)
     f.write(b'\x80\x03' + _class_pickle_bytes(module, name) + b'q\x00.')
     p = zpickle.Pickler(f, 3)
     from . import model_classes
@@ -115,6 +118,32 @@ def make_record(kind, v, refs, pad=0, formats=False):
         return None
     p.persistent_id = pid2
     state = {'v': val_to_py(v), 'refs': [Ref(o, k) for o in sorted(refs) for k in ref_tokens(o, formats)]}
+    if pad:
+        state['pad'] = 'x' * pad
+    p.dump(state)
+    return f.getvalue()
+
+
+def _record_with_newargs(v, refs, pad, formats):
+    """class part (class, (tag,)) and state written by ONE pickler, as ZODB.serialize.ObjectWriter does: the state
+    refers to the tag object through the pickle memo"""
+    from . import model_classes
+    f = io.BytesIO()
+    p = zpickle.Pickler(f, 3)
+
+    def pid2(ob):
+        if isinstance(ob, Ref):
+            if ob.kind == 'weak':
+                return ['w', (p64(ob.oid),)]
+            if ob.kind == 'bare':
+                return p64(ob.oid)
+            return (p64(ob.oid), model_classes.VObj)
+        return None
+    p.persistent_id = pid2
+    value = val_to_py(v)
+    tag = model_classes.Tag(repr(value))        # the very same object appears in the class part and in the state
+    p.dump((model_classes.NMObj, (tag,)))
+    state = {'v': value, 'refs': [Ref(o, k) for o in sorted(refs) for k in ref_tokens(o, formats)], 'tag': tag}
     if pad:
         state['pad'] = 'x' * pad
     p.dump(state)
@@ -152,6 +181,9 @@ class _LoadedRef:
 
 class _Unp(zpickle.Unpickler):
     def find_class(self, module, name):
+        if (module, name) == ('zv.model_classes', 'Tag'):
+            from . import model_classes
+            return model_classes.Tag
         return (module, name)
 
     def persistent_load(self, pid):
@@ -167,6 +199,14 @@ def read_record(data):
     klass = meta[0] if isinstance(meta, tuple) and isinstance(meta[0], tuple) else meta
     refs = frozenset(r.oid for r in state.get('refs', ()) if isinstance(r, _LoadedRef) and r.kind in ('strong', 'bare'))
     read_record.tokens = sorted((r.oid, r.kind) for r in state.get('refs', ()) if isinstance(r, _LoadedRef))
+    # a merged NMObj state lists the shared objects of the three states the resolver was given: each must be the Tag
+    # that was written with that state
+    read_record.tag_error = None
+    if 'tags' in state:
+        want = [repr(x) for x in state['v'][1:4]]
+        got = [getattr(t, 'name', repr(t)) for t in state['tags']]
+        if got != want:
+            read_record.tag_error = tuple(got)
     return klass, py_to_val(state['v']), refs
 
 
@@ -182,6 +222,8 @@ def datum_of(data):
     if STRIDE != 1:
         refs = frozenset(r // STRIDE if r % STRIDE == 0 else ('unmapped-oid', r) for r in refs)
     d = {'v': v, 'refs': refs}
+    if read_record.tag_error is not None:
+        d['shared_object_lost'] = read_record.tag_error
     if FORMATS:
         want = sorted((o, t) for o in refs for t in ref_tokens(o, True))
         if read_record.tokens != want:
